@@ -548,6 +548,9 @@ void *slab_pool<Policy, Mutex>::realloc(void *p, size_t new_size) {
 	void *new_p = allocate(new_size);
 	if(!new_p)
 		return nullptr;
+	// Only the requested prefix of the old block is unpoisoned; we copy its whole usable size.
+	if constexpr (has_poisoning)
+		_plcy.unpoison_expand(p, current_size);
 	memcpy(new_p, p, current_size);
 	free(p);
 	return new_p;
